@@ -1,6 +1,6 @@
 From Coq Require Import ZArith List Bool Reals Lra.
 From Flocq Require Import Core BinarySingleNaN.
-Require Import GV.FloatBase GV.FloatLemmas GV.AngleM GV.AngleProofs GV.GeonumM GV.GeonumProofs GV.TraitsM GV.NewProofs GV.CtorProofs GV.PiBounds GV.TrigProofs GV.DotValue GV.DistValue GV.DirProofs GV.SymProofs.
+Require Import GV.FloatBase GV.FloatLemmas GV.AngleM GV.AngleProofs GV.GeonumM GV.GeonumProofs GV.TraitsM GV.NewProofs GV.CtorProofs GV.PiBounds GV.TrigProofs GV.DotValue GV.DistValue GV.DirProofs GV.SymProofs GV.ClosureProofs GV.SumUpper GV.SumDir GV.MetricProofs.
 Open Scope R_scope.
 Require Import GV.Properties.C13.
 Check C13_distance_encoding : forall (L : libm) a b,
@@ -38,3 +38,36 @@ Check C13_symmetry : forall (L : libm) (u : R) a b, cos_acc L u -> u <= / 1000 -
   Rabs (R_ (mag (distance_to L a b)) - R_ (mag (distance_to L b a)))
     <= 2 * (sqrt Bnd * (1 + / 9007199254740992) + / 9007199254740992 * sqrt D + bpow radix2 (-1075)).
 Print Assumptions C13_symmetry.
+Check C13_law_of_cosines : forall a b,
+  R_ (mag a) * R_ (mag a) + R_ (mag b) * R_ (mag b) - 2 * R_ (mag a) * R_ (mag b) * cos (dir (ang b) - dir (ang a))
+  = (px a - px b) * (px a - px b) + (py a - py b) * (py a - py b).
+Print Assumptions C13_law_of_cosines.
+Check C13_distance_euclid : forall (L : libm) (u : R) a b, cos_acc L u -> u <= / 1000 ->
+  canonp (rem (ang a)) -> canonp (rem (ang b)) -> (0 <= blade (ang a))%Z -> (0 <= blade (ang b))%Z ->
+  fin (dist_sq L a b) ->
+  let e := sqrt ((px a - px b) * (px a - px b) + (py a - py b) * (py a - py b)) in
+  Rabs (R_ (mag (distance_to L a b)) - e) <= dist_tol u a b + / 9007199254740992 * e.
+Print Assumptions C13_distance_euclid.
+Check C13_triangle : forall (L : libm) (u : R) a b c, cos_acc L u -> u <= / 1000 ->
+  canonp (rem (ang a)) -> canonp (rem (ang b)) -> canonp (rem (ang c)) ->
+  (0 <= blade (ang a))%Z -> (0 <= blade (ang b))%Z -> (0 <= blade (ang c))%Z ->
+  fin (dist_sq L a b) -> fin (dist_sq L b c) -> fin (dist_sq L a c) ->
+  R_ (mag (distance_to L a c)) * (1 - / 9007199254740992)
+    <= (R_ (mag (distance_to L a b)) + R_ (mag (distance_to L b c))) * (1 + / 4503599627370496)
+       + 2 * (dist_tol u a b + dist_tol u b c + dist_tol u a c).
+Print Assumptions C13_triangle.
+Check C13_equals_sub : forall (L : libm) (u : R) a b, cos_acc L u -> u <= / 1000 ->
+  canonp (rem (ang a)) -> canonp (rem (ang b)) -> (0 <= blade (ang a))%Z -> (0 <= blade (ang b))%Z ->
+  aeqb (ang a) (negate (ang b)) = false ->
+  aeqb (add_vv (ang a) (new one one)) (negate (ang b)) || aeqb (add_vv (negate (ang b)) (new one one)) (ang a) = false ->
+  fin (dist_sq L a b) -> fin (gadd_rad L a (gnegate b)) ->
+  let S := R_ (mag a) * R_ (mag a) + R_ (mag b) * R_ (mag b) in
+  let e := sqrt ((px a - px b) * (px a - px b) + (py a - py b) * (py a - py b)) in
+  let Bnd := S * (u + 10003 / 100000000000000) + 10 * bpow radix2 (-1075) in
+  Rabs (R_ (mag (distance_to L a b)) - R_ (mag (gsub_vv L a b)))
+    <= 2 * (sqrt Bnd * (1 + / 9007199254740992) + / 9007199254740992 * e + bpow radix2 (-1075)).
+Print Assumptions C13_equals_sub.
+Check C13_dist_tol_def : forall (u : R) a b, dist_tol u a b =
+  sqrt ((R_ (mag a) * R_ (mag a) + R_ (mag b) * R_ (mag b)) * (u + 10003 / 100000000000000) + 10 * bpow radix2 (-1075))
+    * (1 + / 9007199254740992) + bpow radix2 (-1075).
+Print Assumptions C13_dist_tol_def.
